@@ -7,6 +7,7 @@
 package main
 
 import (
+	_ "embed"
 	"fmt"
 	"go/ast"
 	"go/constant"
@@ -23,6 +24,116 @@ type pkg struct {
 	fset  *token.FileSet
 	files map[string]*ast.File
 	dir   string
+	info  *types.Info // lazily built by resolved()
+}
+
+// The vocabulary: every function, method and named closure of gbn/ and mailbox/ that existed when
+// the models and obligations were written (vocabulary.txt, regenerated with `factgen -vocab`).
+// The control skeletons, call lists and event lists name calls of these. A call of a package-local
+// function or local closure that is NOT in the vocabulary - a helper introduced later, for
+// instance by an extract-method refactoring - is expanded in place: the facts then describe what
+// the function does, whichever way it is cut into helpers.
+//
+//go:embed vocabulary.txt
+var vocabText string
+
+var vocab = func() map[string]bool {
+	m := map[string]bool{}
+	for _, l := range strings.Split(vocabText, "\n") {
+		if l = strings.TrimSpace(l); l != "" && !strings.HasPrefix(l, "#") {
+			m[l] = true
+		}
+	}
+	return m
+}()
+
+func (p *pkg) pkgName() string {
+	for _, f := range p.files {
+		return f.Name.Name
+	}
+	return ""
+}
+
+func (p *pkg) resolved() *types.Info {
+	if p.info == nil {
+		p.info = p.typeInfo()
+	}
+	return p.info
+}
+
+func declKey(p *pkg, fd *ast.FuncDecl) string {
+	k := p.pkgName() + "."
+	if fd.Recv != nil && len(fd.Recv.List) == 1 {
+		k += recvName(fd.Recv.List[0].Type) + "."
+	}
+	return k + fd.Name.Name
+}
+
+// localClosures lists `name := func(...) {...}` / `var name = func...` definitions directly in fd.
+func localClosures(fd *ast.FuncDecl) map[string]*ast.FuncLit {
+	res := map[string]*ast.FuncLit{}
+	if fd == nil || fd.Body == nil {
+		return res
+	}
+	ast.Inspect(fd.Body, func(n ast.Node) bool {
+		switch x := n.(type) {
+		case *ast.AssignStmt:
+			if len(x.Lhs) == 1 && len(x.Rhs) == 1 {
+				if id, ok := x.Lhs[0].(*ast.Ident); ok {
+					if fl, ok := x.Rhs[0].(*ast.FuncLit); ok {
+						res[id.Name] = fl
+					}
+				}
+			}
+		case *ast.ValueSpec:
+			if len(x.Names) == 1 && len(x.Values) == 1 {
+				if fl, ok := x.Values[0].(*ast.FuncLit); ok {
+					res[x.Names[0].Name] = fl
+				}
+			}
+		}
+		return true
+	})
+	return res
+}
+
+// expansion returns the body to expand in place of the call ce made inside fd, or nil when the
+// callee is in the vocabulary, not package-local, or recursion would result.
+func (p *pkg) expansion(fd *ast.FuncDecl, closures map[string]*ast.FuncLit, ce *ast.CallExpr, stack map[ast.Node]bool) ast.Node {
+	if id, ok := ce.Fun.(*ast.Ident); ok && fd != nil {
+		if fl, ok := closures[id.Name]; ok && !vocab[declKey(p, fd)+"."+id.Name] && !stack[fl.Body] {
+			return fl.Body
+		}
+	}
+	key := calleeKey(p.resolved(), ce)
+	if key == "" || vocab[p.pkgName()+"."+key] {
+		return nil
+	}
+	recv, name := "", key
+	if i := strings.Index(key, "."); i >= 0 {
+		recv, name = key[:i], key[i+1:]
+	}
+	if callee := p.anyFunc(recv, name); callee != nil && callee.Body != nil && !stack[callee.Body] {
+		return callee.Body
+	}
+	return nil
+}
+
+// vocabulary lists every function, method and named closure of the package.
+func (p *pkg) vocabulary() []string {
+	var res []string
+	for _, f := range p.files {
+		for _, d := range f.Decls {
+			if fd, ok := d.(*ast.FuncDecl); ok {
+				res = append(res, declKey(p, fd))
+				for n := range localClosures(fd) {
+					res = append(res, declKey(p, fd)+"."+n)
+				}
+			}
+		}
+	}
+	sort.Strings(res)
+	return res
 }
 
 func load(dir string) *pkg {
@@ -410,14 +521,24 @@ func calls(p *pkg, fd *ast.FuncDecl) []string {
 	if fd == nil {
 		return res
 	}
-	ast.Inspect(fd.Body, func(n ast.Node) bool {
+	closures := localClosures(fd)
+	stack := map[ast.Node]bool{fd.Body: true}
+	var visit func(n ast.Node) bool
+	visit = func(n ast.Node) bool {
 		if ce, ok := n.(*ast.CallExpr); ok {
+			if body := p.expansion(fd, closures, ce, stack); body != nil {
+				stack[body] = true
+				ast.Inspect(body, visit)
+				delete(stack, body)
+				return true
+			}
 			if fn := exprStr(p.fset, ce.Fun); !isLogCall(fn) {
 				res = append(res, fn)
 			}
 		}
 		return true
-	})
+	}
+	ast.Inspect(fd.Body, visit)
 	return res
 }
 
@@ -431,16 +552,23 @@ func skeleton(p *pkg, fd *ast.FuncDecl) []string {
 		return res
 	}
 	deferred := map[*ast.FuncLit]bool{}
-	ast.Inspect(fd.Body, func(n ast.Node) bool {
+	closures := localClosures(fd)
+	stack := map[ast.Node]bool{fd.Body: true}
+	var visit func(n ast.Node) bool
+	visit = func(n ast.Node) bool {
 		switch x := n.(type) {
 		case *ast.DeferStmt:
 			if fl, ok := x.Call.Fun.(*ast.FuncLit); ok {
 				deferred[fl] = true // the body of `defer func() {...}()` belongs to the function
 				res = append(res, "defer")
+			} else if p.expansion(fd, closures, x.Call, stack) != nil {
+				res = append(res, "defer") // `defer helper()` with a helper outside the vocabulary
 			}
 		case *ast.GoStmt:
 			if fl, ok := x.Call.Fun.(*ast.FuncLit); ok {
 				deferred[fl] = true // so does, for our purposes, the body of `go func() {...}()`
+				res = append(res, "go")
+			} else if p.expansion(fd, closures, x.Call, stack) != nil {
 				res = append(res, "go")
 			}
 		case *ast.FuncLit:
@@ -452,6 +580,13 @@ func skeleton(p *pkg, fd *ast.FuncDecl) []string {
 			if isLogCall(fn) {
 				// logging is not part of the skeleton: adding or removing a log line must not
 				// disturb an obligation (the arguments are still visited)
+				return true
+			}
+			if body := p.expansion(fd, closures, x, stack); body != nil {
+				// a helper that is not in the vocabulary: what it does is part of this function
+				stack[body] = true
+				ast.Inspect(body, visit)
+				delete(stack, body)
 				return true
 			}
 			res = append(res, "call:"+fn)
@@ -504,7 +639,8 @@ func skeleton(p *pkg, fd *ast.FuncDecl) []string {
 			}
 		}
 		return true
-	})
+	}
+	ast.Inspect(fd.Body, visit)
 	return res
 }
 
@@ -571,19 +707,29 @@ func events(p *pkg, fd *ast.FuncDecl) []string {
 	if fd == nil {
 		return res
 	}
-	ast.Inspect(fd.Body, func(n ast.Node) bool {
+	closures := localClosures(fd)
+	stack := map[ast.Node]bool{fd.Body: true}
+	var visit func(n ast.Node) bool
+	visit = func(n ast.Node) bool {
 		switch x := n.(type) {
 		case *ast.UnaryExpr:
 			if x.Op == token.ARROW {
 				res = append(res, "recv:"+exprStr(p.fset, x.X))
 			}
 		case *ast.CallExpr:
+			if body := p.expansion(fd, closures, x, stack); body != nil {
+				stack[body] = true
+				ast.Inspect(body, visit)
+				delete(stack, body)
+				return true
+			}
 			if fn := exprStr(p.fset, x.Fun); !isLogCall(fn) {
 				res = append(res, "call:"+fn)
 			}
 		}
 		return true
-	})
+	}
+	ast.Inspect(fd.Body, visit)
 	return res
 }
 
@@ -872,6 +1018,16 @@ func lockedFirst(p *pkg, fd *ast.FuncDecl) string {
 func main() {
 	repo := "/repo"
 	outPath := "/verif/lean/LncModel/Facts/Generated.lean"
+	if len(os.Args) > 2 && os.Args[1] == "-vocab" {
+		// print the vocabulary of the given tree (to be committed as vocabulary.txt)
+		fmt.Println("# functions, methods and named closures of gbn/ and mailbox/ known to the models (factgen -vocab)")
+		for _, d := range []string{"gbn", "mailbox"} {
+			for _, k := range load(filepath.Join(os.Args[2], d)).vocabulary() {
+				fmt.Println(k)
+			}
+		}
+		return
+	}
 	if len(os.Args) > 1 {
 		repo = os.Args[1]
 	}
